@@ -366,7 +366,7 @@ def curve_callback(vk, cfg):
     vk.canary_bool("x==last-boundary-point", not np.array_equal(job.x[0], Fld.values[5]))
 
 
-@contract("C09", "material_curves", configs=[dict(curve=c, statevars=s) for c in ("uniaxial", "planar", "biaxial") for s in (False, True)] + [dict(curve="evaluate", statevars=True)])
+@contract("C09", "material_curves", configs=[dict(curve=c, statevars=s) for c in ("uniaxial", "planar", "biaxial") for s in (False, True)] + [dict(curve="evaluate", statevars=True)] + [dict(curve=c, statevars=False, solver=m) for c in ("uniaxial", "planar", "biaxial") for m in ("first-fails", "both-fail")])
 def material_curves(vk, cfg):
     """ViewMaterial: each curve evaluates the real material on F = diag(l1, l2, l3) of the documented
     kinematics with the lateral stretch returned by the root solver for P33 = 0, and returns P11; with state
@@ -440,9 +440,18 @@ def material_curves(vk, cfg):
         oracle.assume(x, ">")
         # the code only reports stresses where det F > sqrt(eps) (else NaN + warning): valid-state precondition
         oracle.assume({"uniaxial": l * x * x, "planar": l * x, "biaxial": l * l * x}[curve] - eps, ">")
+        oracle.assume(l - eps, ">")  # the prescribed stretches themselves are in the valid range as well
+        oracle.assume(l * l - eps, ">")
     roots = []
 
+    mode = cfg.get("solver", "ok")
+    starts = []
+    junk = ring.symarray("xfailed", (2,))  # what a failed solve leaves in res.x: must not be used
+
     def root_stub(fun, x0, **kw):
+        starts.append(np.asarray(x0))
+        if mode == "both-fail" or (mode == "first-fails" and len(starts) == 1):
+            return type("Res", (), {"success": False, "x": junk})()
         roots.append(fun(xs))
         return type("Res", (), {"success": True, "x": xs})()
 
@@ -451,9 +460,20 @@ def material_curves(vk, cfg):
     try:
         z0 = ring.symarray("z0", (1, 1, 1)) if cfg["statevars"] else None
         vm = ViewMaterial(umat, ux=lam, ps=lam, bx=lam, statevars=z0)
+        if mode == "both-fail":
+            try:
+                getattr(vm, curve)()
+                raised = None
+            except ValueError as e:
+                raised = str(e)
+            vk.ensures_true("both solves fail: ValueError, no curve returned", raised is not None and len(starts) == 2, f"{raised!r} after {len(starts)} solves")
+            return
         st, force, label = getattr(vm, curve)()
     finally:
         SO.root = real_root
+    if mode == "first-fails":
+        # the solve is repeated ONCE from the start value 1 and ITS solution is the lateral stretch of the curve
+        vk.ensures_true("first solve fails: solved again from the start value 1", len(starts) == 2 and all(co(v).asconst() == 1 for v in np.asarray(starts[1], dtype=object).ravel()), f"{len(starts)} solves")
     eye = ring.lift(np.eye(3))
     lat = {"uniaxial": (xs, xs), "planar": (0 * xs + 1, xs), "biaxial": (lam, xs)}[curve]
     one = ring.lift(np.ones(2))
